@@ -28,6 +28,31 @@ impl Val {
                     }
                 }
             }
+            2 => {
+                // near the LZ4 break-even point: incompressible bytes followed by a run of zeros that is about as long
+                // as the overhead LZ4 adds to incompressible data (one length byte per 255 literals plus a few token
+                // bytes); over many tags this includes values whose LZ4 block is exactly as long, one byte shorter or
+                // one byte longer than the value
+                let tail = (len / 255 + (self.tag % 48) as usize).min(len.saturating_sub(8));
+                let head = len - tail;
+                let mut x = self.tag ^ 0x5EED_1E55_0BAD_F00D;
+                let mut i = 0;
+                while i < head {
+                    if i < 8 {
+                        out.push(t[i]);
+                        i += 1;
+                        continue;
+                    }
+                    let r = crate::rng::splitmix64(&mut x).to_le_bytes();
+                    for b in r {
+                        if i < head {
+                            out.push(b);
+                            i += 1;
+                        }
+                    }
+                }
+                out.resize(len, 0);
+            }
             _ => {
                 let mut x = self.tag ^ 0xA5A5_5A5A_1234_4321;
                 let mut i = 0;
